@@ -6,7 +6,17 @@ import (
 	"os"
 )
 
-// harness <property> -seed S -tier quick|thorough -out DIR
+// streams: every gen_*.go file registers its correspondence stream(s) in an init() function
+var streams = map[string]func(seed uint64, tier string, outdir string) *Report{}
+
+func register(name string, f func(seed uint64, tier string, outdir string) *Report) {
+	if _, dup := streams[name]; dup {
+		panic("duplicate stream " + name)
+	}
+	streams[name] = f
+}
+
+// harness <stream> -seed S -tier quick|thorough -out DIR
 func main() {
 	if len(os.Args) < 2 {
 		fmt.Println("usage: harness <property> [-seed S] [-tier T] [-out DIR]")
@@ -27,16 +37,12 @@ func main() {
 	if err := os.MkdirAll(*out, 0o755); err != nil {
 		panic(err)
 	}
-	var rep *Report
-	switch prop {
-	case "C06":
-		rep = genC06(*seed, *tier, *out)
-	case "C11":
-		rep = genC11(*seed, *tier, *out)
-	default:
-		fmt.Println("unknown property", prop)
+	gen, ok := streams[prop]
+	if !ok {
+		fmt.Println("unknown stream", prop)
 		os.Exit(2)
 	}
+	rep := gen(*seed, *tier, *out)
 	rep.Write(*out)
 	fmt.Printf("harness %s: cases=%d ops=%d distinct_nontrivial=%d violations=%d shards=%d\n", prop, rep.Cases, rep.Ops, rep.Distinct, len(rep.Violations), len(rep.Shards))
 }
